@@ -1,4 +1,5 @@
 import SE.Model.Sync
+import SE.Proofs.Sync
 /-
 C20 — The concurrent pipeline is free of data races.
 
@@ -41,5 +42,46 @@ theorem defaults_unlocked_violates :
     racyLocations [⟨"Exporter", "handleEvent", "Exporter.Mapper.Defaults", false, []⟩,
                    ⟨"MetricMapper", "InitFromYAMLString", "MetricMapper.Defaults", true, [("mutex", true)]⟩] = ["MetricMapper.Defaults"] := by
   decide +kernel
+
+/-! ### what the discipline means (semantics and proofs: SE/Proofs/Sync.lean) -/
+open SE.Sync
+
+/-- mutual exclusion of the lock table in every reachable state of the thread/lock semantics: a lock
+    held exclusively by one goroutine is held by no other goroutine in any mode -/
+theorem lock_table_mutex {st : State} (h : Reachable st) : LockInv st := lockInv_reachable h
+
+/-- **the discipline excludes data races** (generic in the table): if no pair of `rows` violates the
+    discipline, then in every reachable state whose goroutines perform only accesses of `rows`, holding
+    at each access the locks (in the modes) and running in the role its row claims, there are no two
+    distinct goroutines simultaneously about to access the same location, one of them writing -/
+theorem discipline_no_race {rows : List Acc} (hv : violations rows = []) {st : State}
+    (hreach : Reachable st) (hrows : ProgIn rows st) (hheld : AccessHeld st) : ¬ RaceState st :=
+  SE.Sync.discipline_no_race hv hreach hrows hheld
+
+/-- the table regenerated from the current source has no violating pair -/
+theorem no_violation : violations (accRows Gen.accessTable) = [] :=
+  violations_nil_of_racyLocations_nil no_racy_location
+
+/-- **race freedom of the current source's access table**: goroutines that perform the extracted
+    accesses under the extracted locks never reach a state in which two of them are simultaneously at
+    conflicting accesses -/
+theorem current_source_race_free {st : State} (hreach : Reachable st)
+    (hrows : ProgIn (accRows Gen.accessTable) st) (hheld : AccessHeld st) : ¬ RaceState st :=
+  SE.Sync.discipline_no_race no_violation hreach hrows hheld
+
+/-- the same with `AccessHeld` discharged: for goroutines whose programs are sequences of single-lock
+    regions / bare accesses over rows of the current table (each region's rows claiming at most the
+    region's lock, and the goroutine's role), no schedule from the initial state reaches a race -/
+theorem current_source_regions_race_free {s0 st : State} (hinit : Initial s0)
+    (hsys : SegSystem (accRows Gen.accessTable) s0) (hreach : Reach s0 st) : ¬ RaceState st :=
+  segSystem_no_race no_violation hinit hsys hreach
+
+/-- non-vacuity of the semantics: a disciplined writer/reader system reaches a state with the writer at
+    its access and the readers blocked; an undisciplined one reaches a race state -/
+theorem semantics_is_nontrivial :
+    (Reachable Example.sysW ∧ stepAt Example.sysW 1 = none) ∧
+    (∃ st, Reachable st ∧ AccessHeld st ∧ RaceState st) :=
+  ⟨⟨Example.writer_in_readers_blocked.1, Example.writer_in_readers_blocked.2.2.2.1⟩,
+   Example.bad_race_reachable⟩
 
 end SE.Props.C20
